@@ -170,7 +170,7 @@ def attr_c06(ev, names):
     if fam(ev, "t"):
         return "parse-pre" in names
     if fam(ev, "cv"):
-        return "codec-pre" in names
+        return any_in(names, {"codec-pre", "setfloat-pre", "arg-unchanged"})
     return fam(ev, "mh")
 
 
@@ -231,7 +231,7 @@ PROPS["C17"] = dict(
     level_text='Int64Spec, ModfOK, NearestFloat over exact integers / dyadic rationals judge recorded conversions on boundary and seeded values.',
     mc=[("MC_BigNat", None)],
     drivers=["conv"],
-    attr=lambda ev, names: fam(ev, "cv") and ev.get("ck") in ("int64", "setint", "float64", "modf"),
+    attr=lambda ev, names: fam(ev, "cv") and ev.get("ck") in ("int64", "setint", "float64", "modf", "newbig"),
     rule="Int64 on S, on coefficients around MaxInt64/MinInt64 x 10^k with trailing-zero and positive-exponent forms and "
          "seeded values judged by Int64Spec; New/SetInt64/SetFinite/NewWithBigInt/Scan(int64) on boundary and seeded "
          "int64; Modf with every nil/alias pattern judged by ModfOK; Float64 judged by NearestFloat over exact dyadic rationals",
